@@ -429,6 +429,12 @@ def rule_r345(prog: Program, col: Collector) -> None:
     col.check(bool(upd) and okp, it.where(clips[0].node if clips else None), it.short,
               "if self.plus: cumulative_regret is clipped at 0 after the cumulative update", construct="plus-clip",
               necessity="the 'plus' variant keeps cumulative regret non-negative; clipping before the update (or never) lets it go negative")
+    # the terminal losses enter the tree exactly as given
+    tl = ("param", it.positional_params()[1])
+    EL = [e for e in ft.of_kind("store") if e.index is not None and e.value is not None and has_subterm(e.value, tl)]
+    col.check(len(EL) == 1 and EL[0].value == tl, it.where(EL[0].node if EL else None), it.short,
+              "the terminal losses are written into the bottom layer exactly as given (no rescaling / centring / clipping)", construct="terminal-losses-transformed",
+              necessity="a transformation of the inputs changes the regrets (and 0/0 for an all-zero loss vector - a legal non-negative input - turns every strategy into NaN)")
     col.check(len(upd) == 1 and not [f for f in upd[0].ctx if f[0] in ("if",)], it.where(), it.short, "the cumulative update is unconditional",
               construct="regret-update", necessity="a conditional regret update skips iterations: the cumulative regret is then not the sum the orthogonality and no-regret statements speak about")
     # regret added = q - expected (orthogonal to the strategy played)
